@@ -932,6 +932,57 @@ def r5_application(rep, src):
         rep.fail('C18.R5', g.site, 'unparsable command line', 'a line that is not a command does not raise ValueError', where=g.where)
 
 
+def r6_scripts_by_interpretation(rep, src):
+    """patches_from_ed_script interpreted (sa.heap, decided text, CPython's regex engine for the command pattern) on a table of scripts:
+    every command form (a / c / d, single address and range), text blocks that end at '.' with and without line end, text that
+    looks like a terminator ('..'), an empty block, several commands on one shared stream, str and bytes -- and every way a script
+    can be malformed (unknown command, reversed range, range with `a`, line 0 for c / d, a block that runs into the end of the
+    stream or into the empty element that marks it).  Decides the same clauses as C18.R2 / R3 on these scripts, however the
+    reader is written (nested loops over one iterator, next() with a sentinel, takewhile with a predicate that remembers where it
+    stopped).  -> number of scripts whose outcome is as the statement says"""
+    from .. import heap as H
+    mod = src.mod('debian_support')
+    f = src.func(SITE)
+    rep.saw_func(f)
+    E = 'ValueError'
+    table = [
+        (['1a\n', 'x\n', '.\n'], [(1, 1, ['x\n'])]), (['0a\n', 'x\n', 'y\n', '.\n'], [(0, 0, ['x\n', 'y\n'])]),
+        (['2c\n', 'x\n', '.\n'], [(1, 2, ['x\n'])]), (['2,4c\n', 'x\n', '.\n'], [(1, 4, ['x\n'])]), (['3d\n'], [(2, 3, [])]), (['3,5d\n'], [(2, 5, [])]),
+        (['1c\n', '.\n'], [(0, 1, [])]), (['1a\n', '..\n', '.\n'], [(1, 1, ['..\n'])]), (['1a\n', 'x\n', '.'], [(1, 1, ['x\n'])]), (['1a', 'x', '.'], [(1, 1, ['x'])]),
+        (['5a\n', 'x\n', '.\n', '2,3d\n', '1c\n', 'y\n', 'z\n', '.\n'], [(5, 5, ['x\n']), (1, 3, []), (0, 1, ['y\n', 'z\n'])]),
+        ([b'1a\n', b'x\n', b'.\n', b'2d\n'], [(1, 1, [b'x\n']), (1, 2, [])]), ([], []),
+        (['1a\n', '3d\n', '.\n'], [(1, 1, ['3d\n'])]),
+        (['1a\n', 'x\n'], E), (['1a\n', 'x\n', ''], E), (['1c\n'], E), ([b'1a\n', b'x\n', b''], E), (['1a\n'], E),
+        (['1x\n'], E), (['a\n'], E), (['0d\n'], E), (['0c\n', 'x\n', '.\n'], E), (['3,2d\n'], E), (['1,2a\n', 'x\n', '.\n'], E), (['1 d\n'], E), (['-1d\n'], E),
+        (['1d\n', 'x\n'], E), (['٣d\n'], E),
+    ]
+    good = 0
+    for script, want in table:
+        heap = H.Heap(mod)
+        heap.native_regex = True
+        it = H.Interp(heap)
+        try:
+            r = it.call(H.Closure(f.node, {}, None, None), [heap.new_list(list(script))])
+            got = []
+            for p_ in it.seq(r):
+                a_, b_, c_ = (p_ if isinstance(p_, tuple) else tuple(it.seq(p_)))
+                got.append((a_, b_, [x_.concrete() if hasattr(x_, 'concrete') else x_ for x_ in it.seq(c_)]))
+        except H.Raised as x:
+            got = x.exc.split('.')[-1]
+        rule = 'C18.R3' if (want == E and script and script[0][-2:-1] in ('a', 'c', b'a', b'c') and len(script) > 0 and not any(s_ in ('.', '.\n', b'.', b'.\n') for s_ in script)) \
+            or (want != E and any(s_ in ('.', '.\n', b'.', b'.\n') for s_ in script)) else 'C18.R2'
+        what = 'script %r' % (script,)
+        if got == want:
+            good += 1
+            rep.ok(rule, f.site, what, 'ValueError' if want == E else 'patches %r' % (want,), nontrivial=False)
+        elif want == E:
+            rep.fail(rule, f.site, what, 'this script is malformed and must be refused with ValueError; it %s' % (
+                'raises %s' % got if isinstance(got, str) else 'gives the patches %r' % (got,)), where=f.where)
+        else:
+            rep.fail(rule, f.site, what, 'ed reads this script as the patches %r; the reader %s' % (want, 'raises %s' % got if isinstance(got, str) else 'gives %r' % (got,)), where=f.where)
+    return good
+
+
 def check(src, rep, tier):
     rep.explanation = ('C18: (R1) DFA of the command regex on all text equals [0-9]+(,[0-9]+)?[acd]\\n?, bytes twin derived from the '
                        'same text; (R2) every path of the command loop is enumerated per command letter × range form with first/last as '
@@ -941,13 +992,24 @@ def check(src, rep, tier):
     rep.not_decided = ['that the patches of a real diff transform old into new (content of the script)', 'diff -e interoperability']
     rep.need('C18.R1', 2)
     rep.need('C18.R2', 6)
-    rep.need('C18.R4', 5)
+    rep.need('C18.R4', 0)
     rep.need('C18.R3', 2)
     rep.need('C18.R5', 5)
     roles = rep.guard('C18.R1', r1_command_language, src)
-    if roles is not None:
-        rep.guard('C18.R2', r2_r4_table, src, roles)
-    rep.guard('C18.R3', r3_terminator, src)
+    interpreted = rep.guard('C18.R2', r6_scripts_by_interpretation, src)
+    # the shape-based readings of the command loop (the table of affine forms per command, C18.R2 / R4) and of the text-block loop
+    # (C18.R3) speak about ALL numbers and ALL texts; they apply to the loop shapes listed in their vocabulary.  A reader written
+    # otherwise is decided on the script table above only, and the evidence says so.
+    for rule_, fn_, args_ in (('C18.R2', r2_r4_table, (src, roles)), ('C18.R3', r3_terminator, (src,))):
+        if rule_ == 'C18.R2' and roles is None:
+            continue
+        try:
+            fn_(rep, *args_)
+        except AnalysisError as e_:
+            if interpreted is None:
+                rep.error(rule_, str(e_))
+            else:
+                rep.info.append('%s: the shape-based reading does not apply (%s); decided on the %d interpreted scripts only' % (rule_, str(e_)[:160], interpreted))
     rep.guard('C18.R5', r5_application, src)
     # refusals are ValueError: the messages of the refusals can be built
     from . import common
